@@ -15,3 +15,6 @@ pub mod transcript;
 
 pub mod dev;
 pub mod utils;
+
+#[cfg(feature = "verif-hooks")]
+pub mod verif;
